@@ -46,13 +46,23 @@ pub fn observed_prove(cfg: &Cfg, wit: &Wit, ctx: &Ctx, rng: &mut HRng, res: &mut
     let mut t2 = ctx.transcript();
     let out = refbp::ref_prove(&mut t2, &rst, &digits, &wit.blindings, &nonces);
     res.validated += 1;
+    let rng_scalars = trace_rng_scalars(&trace);
+    let mut nonces = nonces;
     if out.proof != rp {
-        res.violate(format!("{}/read-back", sub), "nonces read back from the proof do not reproduce it through the reference prover");
-        return None;
+        // the library's prover is not the reference protocol (C02 / C19's business). The blinding coordinates of A, L, R,
+        // A1, B are still what they are; r and s (which need the reference folding to be solved for) are then taken from
+        // the transcript RNG's output, where they are the first two 64-byte draws of the final round.
+        res.binding_note(format!("{}/read-back", sub), "nonces read back from the proof do not reproduce it through the reference prover (C02 / C19)");
+        let per_round = if wit.seed.is_some() { 0 } else { 2 * cfg.d };
+        let before_final = if wit.seed.is_some() { 0 } else { cfg.d + per_round * cfg.rounds() };
+        if rng_scalars.len() >= before_final + 2 {
+            nonces.r = rng_scalars[before_final];
+            nonces.s = rng_scalars[before_final + 1];
+        }
     }
     Some(ProverRun {
         nonces,
-        rng_scalars: trace_rng_scalars(&trace),
+        rng_scalars,
         bytes: F::to_bytes(&proof),
     })
 }
